@@ -189,7 +189,12 @@ type Sched struct {
 // the shim passes straight through to package sync).
 var S *Sched
 
-var clockBase int64 = 1_000_000_000
+// The logical clock advances in nanoseconds within one and the same second: the
+// adversarial choice for anything derived from coarse time (a restart can follow a
+// crash immediately).
+const clockEpoch int64 = 1_700_000_000
+
+var clockBase int64 = 1000
 
 // TimeNow replaces time.Now in the code under test: a logical clock that is
 // monotonic across server instances of one process.
@@ -202,14 +207,14 @@ func TimeNow() time.Time {
 		t := s.cur
 		t.clock++
 		v := clockBase + t.clock*64 + int64(t.ID)
-		return time.Unix(v/1000, (v%1000)*1000)
+		return time.Unix(clockEpoch, v)
 	}
 	clockBase++
-	return time.Unix(clockBase/1000, (clockBase%1000)*1000)
+	return time.Unix(clockEpoch, clockBase)
 }
 
 //go:norace
-func ResetClock() { clockBase = 1_000_000_000 }
+func ResetClock() { clockBase = 1000 }
 
 // SortedKeys fixes map iteration order.
 func SortedKeys[K cmp.Ordered, V any](m map[K]V) []K {
